@@ -405,6 +405,8 @@ class CFG:
             return en, f, t
         if isinstance(e, ast.Name) and e.id in self._flags:
             return self._cond(self._flags[e.id][0], ctxs)
+        if isinstance(e, ast.Call) and isinstance(e.func, ast.Name) and e.func.id == "bool" and len(e.args) == 1 and not e.keywords:
+            return self._cond(e.args[0], ctxs)      # bool(X) in test position is X
         ci = self._cond_inline(e, ctxs)
         if ci is not None:
             return ci
@@ -478,6 +480,15 @@ class CFG:
             return self._inline_block(s, ctxs)
         if isinstance(s, SplicedBody):
             return self._spliced_body(s, ctxs)
+        if isinstance(s, (ast.Assign, ast.AnnAssign, ast.Return)) and isinstance(getattr(s, "value", None), ast.IfExp) \
+                and not (isinstance(s, ast.Assign) and len(s.targets) != 1):
+            # `x = A if C else B`  ->  `if C: x = A` / `else: x = B`  (same evaluation order)
+            ie = s.value
+            a_, b_ = copy.copy(s), copy.copy(s)
+            a_.value, b_.value = ie.body, ie.orelse
+            cond = ast.If(test=ie.test, body=[a_], orelse=[b_])
+            ast.copy_location(cond, s)
+            return self._stmt(cond, ctxs)
         if isinstance(s, ast.Expr) and isinstance(s.value, ast.YieldFrom):
             from .inline import desugar_yield_from
             ds = desugar_yield_from(s)
